@@ -106,7 +106,17 @@ def check(rep):
     evaluations = explored_leaves = exhaustive = 0
     distinct = set()
     seeds = 2 if quick else 4
+    timeouts = 0
+    import os as _os, sys as _sys, time as _time
+    _t0 = _time.time()
     for arche, text in texts:
+        if _os.environ.get("VERIF_PROGRESS"):
+            print(f"[progress {_time.time() - _t0:.0f}s] {arche} {text[:70]} timeouts={timeouts}", file=_sys.stderr, flush=True)
+        if timeouts >= (5 if quick else 25):
+            # generation that does not come back is already reported (each with its replay); the remaining inputs would only repeat it,
+            # at one time limit each
+            skipped["after_repeated_timeouts"] = skipped.get("after_repeated_timeouts", 0) + 1
+            continue
         try:
             with fw.time_limit(20):
                 mol = gbigsmiles.Molecule(text)
@@ -122,9 +132,10 @@ def check(rep):
         for k in range(seeds):
             seed = rnd.randrange(1 << 30)
             ident = {"archetype": arche, "text": text, "seed": seed, "mode": "seeded"}
-            run = al.AGRun(sag, seed, timeout=60 if quick else 300)
+            run = al.AGRun(sag, seed, timeout=30 if quick else 300)
             evaluations += 1
             check_run(rep, ident, run, stats)
+            timeouts += bool(run.timed_out)
             if run.error is None and not run.timed_out and not run.draw_failed:
                 if run.ag.graph.number_of_nodes() > 3:
                     distinct.add((text, seed))
@@ -139,8 +150,9 @@ def check(rep):
                             pass
                     if not same:
                         rep.fail("oracle", "two generations with one seed differ", ident, expected="identical molecules", observed="different")
-        # all choice sequences for small forced draws (bounded instances)
-        if arche in dict(EXTRA) or rnd.random() < (0.25 if quick else 0.3):
+        # all choice sequences for small forced draws (bounded instances); not on an input whose generation did not come back
+        explore_it = arche in dict(EXTRA) or rnd.random() < (0.25 if quick else 0.3)
+        if explore_it and not (timeouts and run.timed_out):
             forced = [rnd.choice([45.3, 77.7, 131.9])] * 8
             leaves, trunc = al.explore(sag, forced, max_leaves=40 if quick else 250, timeout=30)
             exhaustive += not trunc
